@@ -1,7 +1,7 @@
 (* The models of Reshape, Flatten, Squeeze, Unsqueeze, Shape (Model/ShapeOps.v) refine the
    ONNX specification S of Check/CheckC07.v, for every input shape of any rank, every dtype,
    every request. *)
-From Coq Require Import List ZArith Bool Lia String.
+From Coq Require Import List ZArith Bool Lia String Permutation Sorted.
 From V Require Import DType Tensor Case OpCheck ShapeOps CheckC07.
 Import ListNotations.
 Open Scope Z_scope.
@@ -17,36 +17,697 @@ Definition refines (s : spec_out) (m : mres (list (option tval))) : Prop :=
 
 Definition positive_shape (s : list nat) : Prop := Forall (fun d => (1 <= d)%nat) s.
 
-(* TARGET: per operator *)
-Theorem reshape_refines t shp : positive_shape (sh t) ->
-  refines (reshape_spec t shp) (let* v := reshape_model t shp in MOk [Some v]).
-Proof.
-Abort.
+(* ------------------------------------------------------------------------------------ *)
+(* generic facts: products, gz_reshape, boolean list predicates                          *)
+(* ------------------------------------------------------------------------------------ *)
 
-Theorem flatten_refines axis t : positive_shape (sh t) ->
-  refines (flatten_spec axis t) (let* v := flatten_model axis t in MOk [Some v]).
-Proof.
-Abort.
+Lemma zprod_nil : zprod [] = 1.
+Proof. reflexivity. Qed.
 
-Theorem squeeze_refines t axes : positive_shape (sh t) ->
-  refines (squeeze_spec t axes) (let* v := squeeze_model t axes in MOk [Some v]).
-Proof.
-Abort.
+Lemma zprod_cons x l : zprod (x :: l) = x * zprod l.
+Proof. reflexivity. Qed.
 
-Theorem unsqueeze_refines t axes : positive_shape (sh t) ->
-  refines (unsqueeze_spec t axes) (let* v := unsqueeze_model t axes in MOk [Some v]).
+Lemma zprod_app a b : zprod (a ++ b) = zprod a * zprod b.
 Proof.
-Abort.
+  induction a as [|x a IH]; cbn [app].
+  - rewrite zprod_nil. lia.
+  - rewrite !zprod_cons, IH. lia.
+Qed.
+
+Lemma zprod_pos l : Forall (fun d => 1 <= d) l -> 1 <= zprod l.
+Proof.
+  induction 1 as [|x l Hx _ IH].
+  - rewrite zprod_nil. lia.
+  - rewrite zprod_cons. nia.
+Qed.
+
+Lemma zprod_nonneg l : Forall (fun d => 0 <= d) l -> 0 <= zprod l.
+Proof.
+  induction 1 as [|x l Hx _ IH].
+  - rewrite zprod_nil. lia.
+  - rewrite zprod_cons. apply Z.mul_nonneg_nonneg; assumption.
+Qed.
+
+Lemma zprod_all_one l : Forall (fun d => d = 1) l -> zprod l = 1.
+Proof.
+  induction 1 as [|x l Hx _ IH].
+  - reflexivity.
+  - rewrite zprod_cons, IH, Hx. reflexivity.
+Qed.
+
+Lemma zprod_ge2 l x : Forall (fun d => 1 <= d) l -> In x l -> 2 <= x -> 2 <= zprod l.
+Proof.
+  intros Hl. revert x. induction Hl as [|y l Hy Hl IH]; intros x Hin Hx.
+  - destruct Hin.
+  - rewrite zprod_cons. pose proof (zprod_pos l Hl) as Hp. destruct Hin as [->|Hin].
+    + nia.
+    + specialize (IH x Hin Hx). nia.
+Qed.
+
+Lemma Forall_ge1_nonneg l : Forall (fun d => 1 <= d) l -> Forall (fun d => 0 <= d) l.
+Proof. apply Forall_impl. intros a Ha. lia. Qed.
+
+Lemma zshape_pos s : positive_shape s -> Forall (fun d => 1 <= d) (zshape s).
+Proof.
+  unfold positive_shape, zshape. intros H. apply Forall_map. revert H.
+  apply Forall_impl. intros a Ha. lia.
+Qed.
+
+Lemma zshape_nonneg s : Forall (fun d => 0 <= d) (zshape s).
+Proof. unfold zshape. apply Forall_map. apply Forall_forall. intros x _. lia. Qed.
+
+Lemma total_pos t : positive_shape (sh t) -> 1 <= total t.
+Proof. intros H. unfold total. apply zprod_pos, zshape_pos, H. Qed.
+
+Lemma existsb_neg_false l : Forall (fun d => 0 <= d) l -> existsb (fun d => d <? 0) l = false.
+Proof.
+  induction 1 as [|x l Hx _ IH]; cbn [existsb]; [reflexivity|].
+  rewrite IH, orb_false_r. apply Z.ltb_ge. exact Hx.
+Qed.
+
+Lemma gz_reshape_ok t dims :
+  zprod dims = total t -> Forall (fun d => 0 <= d) dims -> gz_reshape t dims = MOk (with_shape t dims).
+Proof.
+  intros Hp Hn. unfold gz_reshape. rewrite (proj2 (Z.eqb_eq _ _) Hp). cbn [negb].
+  rewrite (existsb_neg_false _ Hn). reflexivity.
+Qed.
+
+Lemma gz_reshape_err t dims : zprod dims <> total t -> gz_reshape t dims = MErr.
+Proof. intros Hp. unfold gz_reshape. rewrite (proj2 (Z.eqb_neq _ _) Hp). reflexivity. Qed.
+
+Lemma refines_ok_must t dims :
+  zprod dims = total t -> Forall (fun d => 0 <= d) dims ->
+  refines (SMust1 (with_shape t dims)) (let* v := gz_reshape t dims in MOk [Some v]).
+Proof. intros Hp Hn. rewrite (gz_reshape_ok t dims Hp Hn). reflexivity. Qed.
+
+Lemma refines_err t dims :
+  zprod dims <> total t -> refines SMustErr (let* v := gz_reshape t dims in MOk [Some v]).
+Proof. intros Hp. rewrite (gz_reshape_err t dims Hp). reflexivity. Qed.
+
+Lemma forallb_map {A B} (g : A -> B) (p : B -> bool) l :
+  forallb p (map g l) = forallb (fun x => p (g x)) l.
+Proof. induction l as [|x l IH]; cbn [map forallb]; [reflexivity|]. now rewrite IH. Qed.
+
+Lemma forallb_ext' {A} (p q : A -> bool) l : (forall x, p x = q x) -> forallb p l = forallb q l.
+Proof. intros H. induction l as [|x l IH]; cbn [forallb]; [reflexivity|]. now rewrite H, IH. Qed.
+
+Lemma forallb_false_ex {A} (p : A -> bool) l : forallb p l = false -> exists x, In x l /\ p x = false.
+Proof.
+  induction l as [|x l IH]; cbn [forallb]; intros H; [discriminate|].
+  apply andb_false_iff in H as [H|H].
+  - exists x. split; [left; reflexivity|exact H].
+  - destruct (IH H) as (y & Hy & Hp). exists y. split; [right; exact Hy|exact Hp].
+Qed.
+
+Lemma existsb_false_filter {A} (p : A -> bool) l : existsb p l = false -> filter p l = [].
+Proof.
+  induction l as [|x l IH]; cbn [existsb filter]; intros H; [reflexivity|].
+  apply orb_false_iff in H as [H1 H2]. rewrite H1. exact (IH H2).
+Qed.
+
+Lemma existsb_true_filter {A} (p : A -> bool) l : existsb p l = true -> (1 <= List.length (filter p l))%nat.
+Proof.
+  induction l as [|x l IH]; cbn [existsb filter]; intros H; [discriminate|].
+  destruct (p x); cbn [orb] in H; [cbn [List.length]; lia|exact (IH H)].
+Qed.
+
+Lemma filter_nil_existsb {A} (p : A -> bool) l : filter p l = [] -> existsb p l = false.
+Proof.
+  intros H. destruct (existsb p l) eqn:E; [|reflexivity].
+  apply existsb_true_filter in E. rewrite H in E. cbn [List.length] in E. lia.
+Qed.
+
+Lemma Forall_filter {A} (P : A -> Prop) (p : A -> bool) l : Forall P l -> Forall P (filter p l).
+Proof.
+  intros H. apply Forall_forall. intros x Hx. apply filter_In in Hx as [Hx _].
+  revert x Hx. apply Forall_forall. exact H.
+Qed.
+
+(* ------------------------------------------------------------------------------------ *)
+(* Shape                                                                                 *)
+(* ------------------------------------------------------------------------------------ *)
 
 Theorem shape_refines t : sh t <> [] ->
   refines (shape_spec t) (let* v := shape_model t in MOk [Some v]).
 Proof.
-Abort.
+  intros H. unfold shape_spec, shape_model.
+  destruct (sh t) as [|d s] eqn:E; [congruence|]. reflexivity.
+Qed.
 
-(* TARGET: the whole case-level statement used by Properties/C07.v *)
+(* ------------------------------------------------------------------------------------ *)
+(* Flatten                                                                               *)
+(* ------------------------------------------------------------------------------------ *)
+
+Lemma zprod_firstn_skipn n (s : list nat) :
+  zprod (zshape (firstn n s)) * zprod (zshape (skipn n s)) = zprod (zshape s).
+Proof. rewrite <- zprod_app. unfold zshape. rewrite <- map_app, firstn_skipn. reflexivity. Qed.
+
+Theorem flatten_refines axis t : positive_shape (sh t) ->
+  refines (flatten_spec axis t) (let* v := flatten_model axis t in MOk [Some v]).
+Proof.
+  intros _. unfold flatten_spec, flatten_model. cbv zeta.
+  set (r := Z.of_nat (List.length (sh t))).
+  destruct ((axis <? - r) || (r <? axis)) eqn:Hrange; [reflexivity|].
+  replace (axis + r) with (r + axis) by lia.
+  set (a := if axis <? 0 then r + axis else axis).
+  destruct (a =? 0) eqn:Ha.
+  - apply Z.eqb_eq in Ha. rewrite Ha. change (Z.to_nat 0) with 0%nat. cbn [firstn skipn].
+    change (zprod (zshape [])) with 1. fold (total t).
+    apply refines_ok_must.
+    + rewrite !zprod_cons, zprod_nil. lia.
+    + apply Forall_cons; [lia|]. apply Forall_cons; [|apply Forall_nil].
+      unfold total. apply zprod_nonneg, zshape_nonneg.
+  - apply refines_ok_must.
+    + rewrite !zprod_cons, zprod_nil, Z.mul_1_r. unfold total. apply zprod_firstn_skipn.
+    + apply Forall_cons; [apply zprod_nonneg, zshape_nonneg|].
+      apply Forall_cons; [apply zprod_nonneg, zshape_nonneg|apply Forall_nil].
+Qed.
+
+(* ------------------------------------------------------------------------------------ *)
+(* Squeeze                                                                               *)
+(* ------------------------------------------------------------------------------------ *)
+
+Lemma zprod_filter_split {A} (f : A -> Z) (p : A -> bool) l :
+  zprod (map f (filter p l)) * zprod (map f (filter (fun i => negb (p i)) l)) = zprod (map f l).
+Proof.
+  induction l as [|x l IH]; cbn [filter map]; [rewrite zprod_nil; lia|].
+  destruct (p x); cbn [negb map]; rewrite !zprod_cons, <- IH; lia.
+Qed.
+
+Lemma map_nth_seq_gen (s pre : list nat) :
+  map (fun i => Z.of_nat (nth i (pre ++ s) 0%nat)) (seq (List.length pre) (List.length s)) = zshape s.
+Proof.
+  unfold zshape. revert pre. induction s as [|d s IH]; intros pre; [reflexivity|].
+  cbn [List.length seq map]. f_equal.
+  - rewrite nth_middle. reflexivity.
+  - specialize (IH (pre ++ [d])). rewrite <- app_assoc in IH. cbn [app] in IH.
+    rewrite app_length in IH. cbn [List.length] in IH. rewrite Nat.add_1_r in IH. exact IH.
+Qed.
+
+Lemma map_nth_seq (s : list nat) :
+  map (fun i => Z.of_nat (nth i s 0%nat)) (seq 0 (List.length s)) = zshape s.
+Proof. exact (map_nth_seq_gen s []). Qed.
+
+Lemma map_filter_comm {A B} (f : A -> B) (q : B -> bool) l :
+  map f (filter (fun x => q (f x)) l) = filter q (map f l).
+Proof.
+  induction l as [|x l IH]; cbn [filter map]; [reflexivity|].
+  destruct (q (f x)); cbn [map]; now rewrite IH.
+Qed.
+
+Lemma zprod_filter_not1 l : zprod (filter (fun d => negb (d =? 1)) l) = zprod l.
+Proof.
+  induction l as [|x l IH]; cbn [filter]; [reflexivity|].
+  destruct (x =? 1) eqn:E; cbn [negb]; rewrite ?zprod_cons, IH.
+  - apply Z.eqb_eq in E. lia.
+  - reflexivity.
+Qed.
+
+Lemma existsb_Zeq_In i l : existsb (fun d => d =? Z.of_nat i) (map Z.of_nat l) = true <-> In i l.
+Proof.
+  rewrite existsb_exists. split.
+  - intros (d & Hin & Heq). apply in_map_iff in Hin as (j & <- & Hj).
+    apply Z.eqb_eq in Heq. apply Nat2Z.inj in Heq. subst j. exact Hj.
+  - intros H. exists (Z.of_nat i). split; [apply in_map; exact H|apply Z.eqb_refl].
+Qed.
+
+Lemma squeeze_none_refines t :
+  refines (squeeze_spec t None) (let* v := squeeze_model t None in MOk [Some v]).
+Proof.
+  unfold squeeze_spec, squeeze_model. cbv zeta. cbv beta iota.
+  set (s := sh t).
+  assert (E : map (fun i => Z.of_nat (nth i s 0%nat))
+                (filter (fun i => negb (existsb (fun d => d =? Z.of_nat i)
+                     (map Z.of_nat (filter (fun i0 => Nat.eqb (nth i0 s 0%nat) 1) (seq 0 (List.length s))))))
+                        (seq 0 (List.length s)))
+              = filter (fun d => negb (d =? 1)) (zshape s)).
+  { rewrite (filter_ext_in _ (fun i => negb (Nat.eqb (nth i s 0%nat) 1))).
+    2:{ intros i Hi. f_equal. apply eq_true_iff_eq. rewrite existsb_Zeq_In, filter_In.
+        split; [intros [_ H]; exact H|intros H; split; assumption]. }
+    rewrite <- (map_nth_seq s), <- map_filter_comm. f_equal. apply filter_ext. intros i.
+    f_equal. apply eq_true_iff_eq. rewrite Nat.eqb_eq, Z.eqb_eq. lia. }
+  rewrite E. apply refines_ok_must.
+  - rewrite zprod_filter_not1. reflexivity.
+  - apply Forall_filter, zshape_nonneg.
+Qed.
+
+Lemma existsb_Zeq_nat i ds : Forall (fun d => 0 <= d) ds ->
+  existsb (fun d => d =? Z.of_nat i) ds = existsb (Nat.eqb i) (map Z.to_nat ds).
+Proof.
+  induction 1 as [|d ds Hd _ IH]; cbn [existsb map]; [reflexivity|].
+  rewrite IH. f_equal. apply eq_true_iff_eq. rewrite Nat.eqb_eq, Z.eqb_eq. lia.
+Qed.
+
+Lemma existsb_nat_In i l : existsb (Nat.eqb i) l = true <-> In i l.
+Proof.
+  rewrite existsb_exists. split.
+  - intros (j & Hj & E). apply Nat.eqb_eq in E. subst j. exact Hj.
+  - intros H. exists i. split; [exact H|apply Nat.eqb_refl].
+Qed.
+
+(* the heart of Squeeze: the remaining extents multiply to the total iff every removed one is 1 *)
+Lemma squeeze_core t (nm : list nat) :
+  positive_shape (sh t) ->
+  Forall (fun i => (i < List.length (sh t))%nat) nm ->
+  let f := fun i => Z.of_nat (nth i (sh t) 0%nat) in
+  let keep := filter (fun i => negb (existsb (Nat.eqb i) nm)) (seq 0 (List.length (sh t))) in
+  if forallb (fun i => Nat.eqb (nth i (sh t) 0%nat) 1) nm
+  then gz_reshape t (map f keep) = MOk (with_shape t (map f keep))
+  else gz_reshape t (map f keep) = MErr.
+Proof.
+  intros Hpos Hlt f keep.
+  pose proof (zprod_filter_split f (fun i => negb (existsb (Nat.eqb i) nm)) (seq 0 (List.length (sh t)))) as Hsplit.
+  fold keep in Hsplit. unfold f in Hsplit at 3. rewrite map_nth_seq in Hsplit. fold (total t) in Hsplit.
+  set (rem := filter (fun i => negb (negb (existsb (Nat.eqb i) nm))) (seq 0 (List.length (sh t)))) in Hsplit.
+  assert (Hf1 : forall i, (i < List.length (sh t))%nat -> 1 <= f i).
+  { intros i Hi. unfold f. pose proof (nth_In (sh t) 0%nat Hi) as Hin.
+    unfold positive_shape in Hpos. rewrite Forall_forall in Hpos. specialize (Hpos _ Hin). lia. }
+  assert (Hall1 : forall l, Forall (fun i => (i < List.length (sh t))%nat) l -> Forall (fun d => 1 <= d) (map f l)).
+  { intros l Hl. apply Forall_map. revert Hl. apply Forall_impl. exact Hf1. }
+  assert (Hseq : Forall (fun i => (i < List.length (sh t))%nat) (seq 0 (List.length (sh t)))).
+  { apply Forall_forall. intros i Hi. apply in_seq in Hi. lia. }
+  assert (Hkeep1 : Forall (fun d => 1 <= d) (map f keep)).
+  { apply Hall1. apply Forall_filter. exact Hseq. }
+  assert (Hrem1 : Forall (fun d => 1 <= d) (map f rem)).
+  { apply Hall1. apply Forall_filter. exact Hseq. }
+  destruct (forallb (fun i => Nat.eqb (nth i (sh t) 0%nat) 1) nm) eqn:Hones.
+  - apply gz_reshape_ok; [|apply Forall_ge1_nonneg; exact Hkeep1].
+    assert (Hr : zprod (map f rem) = 1).
+    { apply zprod_all_one. apply Forall_map. apply Forall_forall. intros i Hi.
+      apply filter_In in Hi as [_ Hi]. rewrite negb_involutive in Hi. apply existsb_nat_In in Hi.
+      rewrite forallb_forall in Hones. specialize (Hones i Hi). apply Nat.eqb_eq in Hones.
+      unfold f. rewrite Hones. reflexivity. }
+    rewrite Hr in Hsplit. lia.
+  - apply gz_reshape_err.
+    destruct (forallb_false_ex _ _ Hones) as (i & Hi & Hne). apply Nat.eqb_neq in Hne.
+    rewrite Forall_forall in Hlt. pose proof (Hlt i Hi) as Hilt.
+    assert (Hir : In i rem).
+    { apply filter_In. split; [apply in_seq; lia|]. rewrite negb_involutive. apply existsb_nat_In. exact Hi. }
+    assert (H2 : 2 <= zprod (map f rem)).
+    { apply (zprod_ge2 _ (f i) Hrem1); [apply in_map; exact Hir|].
+      pose proof (Hf1 i Hilt) as H1. unfold f in *. lia. }
+    pose proof (zprod_pos _ Hkeep1) as Hk. nia.
+Qed.
+
+Theorem squeeze_refines t axes : positive_shape (sh t) ->
+  refines (squeeze_spec t axes) (let* v := squeeze_model t axes in MOk [Some v]).
+Proof.
+  intros Hpos. destruct axes as [a|]; [|apply squeeze_none_refines].
+  unfold squeeze_spec, squeeze_model. cbv zeta.
+  destruct (sh a) as [|k [|k' sr]] eqn:Hsa; [exact I| |exact I].
+  cbv beta iota.
+  set (n := Z.of_nat (List.length (sh t))).
+  set (ds := map (fun v => if v <? 0 then n + v else v) (pl a)).
+  assert (Hrg : forallb (fun v => (0 <=? v) && (v <=? n - 1)) ds
+                = forallb (fun x => (- n <=? x) && (x <? n)) (pl a)).
+  { unfold ds. rewrite forallb_map. apply forallb_ext'. intros x. apply eq_true_iff_eq.
+    destruct (x <? 0) eqn:Hx; [apply Z.ltb_lt in Hx|apply Z.ltb_ge in Hx];
+      rewrite !andb_true_iff, !Z.leb_le, Z.ltb_lt; lia. }
+  assert (Hds : forallb (fun x => (- n <=? x) && (x <? n)) (pl a) = true -> Forall (fun d => 0 <= d < n) ds).
+  { intros Hr. rewrite <- Hrg in Hr. apply Forall_forall. intros d Hd. rewrite forallb_forall in Hr.
+    specialize (Hr d Hd). apply andb_true_iff in Hr as [H1 H2].
+    apply Z.leb_le in H1, H2. lia. }
+  rewrite Hrg. clear Hrg.
+  destruct (forallb (fun x => (- n <=? x) && (x <? n)) (pl a)) eqn:Hrange; cbn [negb]; [|reflexivity].
+  specialize (Hds eq_refl).
+  replace (map (fun x => Z.to_nat (if x <? 0 then x + n else x)) (pl a)) with (map Z.to_nat ds).
+  2:{ unfold ds. rewrite map_map. apply map_ext. intros x. destruct (x <? 0); f_equal; lia. }
+  rewrite (filter_ext (fun i => negb (existsb (fun d => d =? Z.of_nat i) ds))
+                      (fun i => negb (existsb (Nat.eqb i) (map Z.to_nat ds)))).
+  2:{ intros i. f_equal. apply existsb_Zeq_nat. revert Hds. apply Forall_impl. intros d Hd. lia. }
+  assert (Hlt : Forall (fun i => (i < List.length (sh t))%nat) (map Z.to_nat ds)).
+  { apply Forall_map. revert Hds. apply Forall_impl. intros d Hd. unfold n in Hd. lia. }
+  pose proof (squeeze_core t (map Z.to_nat ds) Hpos Hlt) as Hcore. cbv zeta in Hcore.
+  destruct (forallb (fun i => Nat.eqb (nth i (sh t) 0%nat) 1) (map Z.to_nat ds)) eqn:Hones; cbn [negb].
+  - rewrite Hcore.
+    destruct (List.length (nodup Nat.eq_dec (map Z.to_nat ds)) <? List.length (map Z.to_nat ds))%nat.
+    + left. reflexivity.
+    + reflexivity.
+  - rewrite Hcore. reflexivity.
+Qed.
+
+(* ------------------------------------------------------------------------------------ *)
+(* Unsqueeze                                                                             *)
+(* ------------------------------------------------------------------------------------ *)
+
+Lemma insert_ones_prod fuel : forall i orig idx,
+  (List.length orig + List.length idx <= fuel)%nat ->
+  zprod (insert_ones fuel i orig idx) = zprod (zshape orig).
+Proof.
+  induction fuel as [|f IH]; intros i orig idx Hlen.
+  - destruct orig as [|d o']; [|cbn [List.length] in Hlen; lia]. reflexivity.
+  - cbn [insert_ones]. destruct idx as [|j idx'].
+    + destruct orig as [|d o']; [reflexivity|].
+      cbn [List.length] in Hlen. unfold zshape. cbn [map]. fold (zshape o').
+      rewrite !zprod_cons, IH; [reflexivity|cbn [List.length]; lia].
+    + cbn [List.length] in Hlen. destruct (j =? i).
+      * rewrite zprod_cons, IH; [lia|lia].
+      * destruct orig as [|d o']; [reflexivity|].
+        cbn [List.length] in Hlen. unfold zshape. cbn [map]. fold (zshape o').
+        rewrite !zprod_cons, IH; [reflexivity|cbn [List.length]; lia].
+Qed.
+
+Lemma insert_ones_nonneg fuel : forall i orig idx,
+  Forall (fun d => 0 <= d) (insert_ones fuel i orig idx).
+Proof.
+  induction fuel as [|f IH]; intros i orig idx; cbn [insert_ones]; [apply Forall_nil|].
+  destruct idx as [|j idx'].
+  - destruct orig as [|d o']; [apply Forall_nil|]. apply Forall_cons; [lia|apply IH].
+  - destruct (j =? i).
+    + apply Forall_cons; [lia|apply IH].
+    + destruct orig as [|d o']; [apply Forall_nil|]. apply Forall_cons; [lia|apply IH].
+Qed.
+
+Lemma insert_sorted_perm x l : Permutation (insert_sorted x l) (x :: l).
+Proof.
+  induction l as [|y r IH]; cbn [insert_sorted]; [apply Permutation_refl|].
+  destruct (x <=? y); [apply Permutation_refl|].
+  apply perm_trans with (y :: x :: r); [apply perm_skip; exact IH|apply perm_swap].
+Qed.
+
+Lemma sortz_perm l : Permutation (sortz l) l.
+Proof.
+  induction l as [|x l IH]; cbn [sortz fold_right]; [apply Permutation_refl|].
+  fold (sortz l). apply perm_trans with (x :: sortz l); [apply insert_sorted_perm|apply perm_skip; exact IH].
+Qed.
+
+Lemma insert_sorted_sorted x l :
+  StronglySorted Z.le l -> StronglySorted Z.le (insert_sorted x l).
+Proof.
+  induction 1 as [|y r Hr IH Hy]; cbn [insert_sorted].
+  - apply SSorted_cons; [apply SSorted_nil|apply Forall_nil].
+  - destruct (x <=? y) eqn:Hxy.
+    + apply Z.leb_le in Hxy. apply SSorted_cons; [apply SSorted_cons; assumption|].
+      apply Forall_cons; [exact Hxy|]. revert Hy. apply Forall_impl. intros a Ha. lia.
+    + apply Z.leb_gt in Hxy. apply SSorted_cons; [exact IH|].
+      apply Forall_forall. intros a Ha.
+      apply (Permutation_in _ (insert_sorted_perm x r)) in Ha. destruct Ha as [<-|Ha]; [lia|].
+      rewrite Forall_forall in Hy. exact (Hy a Ha).
+Qed.
+
+Lemma sortz_sorted l : StronglySorted Z.le (sortz l).
+Proof.
+  induction l as [|x l IH]; cbn [sortz fold_right]; [apply SSorted_nil|].
+  fold (sortz l). apply insert_sorted_sorted. exact IH.
+Qed.
+
+Lemma NoDup_has_dup l : NoDup l -> has_dup l = false.
+Proof.
+  induction 1 as [|a l Ha Hl IH]; [reflexivity|].
+  destruct l as [|b r]; [reflexivity|].
+  change (has_dup (a :: b :: r)) with ((a =? b) || has_dup (b :: r)).
+  rewrite IH, orb_false_r. apply Z.eqb_neq. intros ->. apply Ha. left. reflexivity.
+Qed.
+
+Lemma sorted_has_dup_NoDup l : StronglySorted Z.le l -> has_dup l = false -> NoDup l.
+Proof.
+  induction 1 as [|a l Hl IH Ha]; intros Hd; [apply NoDup_nil|].
+  destruct l as [|b r]; [apply NoDup_cons; [intros []|apply NoDup_nil]|].
+  change (has_dup (a :: b :: r)) with ((a =? b) || has_dup (b :: r)) in Hd.
+  apply orb_false_iff in Hd as [Hab Hd]. apply Z.eqb_neq in Hab.
+  apply NoDup_cons; [|exact (IH Hd)].
+  intros Hin. inversion Ha as [|? ? Hab' Har]; subst.
+  destruct Hin as [E|Hin]; [congruence|].
+  inversion Hl as [|? ? _ Hbr]; subst. rewrite Forall_forall in Hbr. specialize (Hbr a Hin). lia.
+Qed.
+
+Lemma nodup_length_le (l : list Z) : (List.length (nodup Z.eq_dec l) <= List.length l)%nat.
+Proof.
+  induction l as [|a l IH]; cbn [nodup List.length]; [lia|].
+  destruct (in_dec Z.eq_dec a l); cbn [List.length]; lia.
+Qed.
+
+Lemma nodup_length_eq_NoDup (l : list Z) :
+  List.length (nodup Z.eq_dec l) = List.length l -> NoDup l.
+Proof.
+  induction l as [|a l IH]; cbn [nodup List.length]; intros H; [apply NoDup_nil|].
+  destruct (in_dec Z.eq_dec a l) as [Hin|Hnin].
+  - pose proof (nodup_length_le l). lia.
+  - cbn [List.length] in H. apply NoDup_cons; [exact Hnin|apply IH; lia].
+Qed.
+
+Lemma nodup_has_dup (l : list Z) :
+  (List.length (nodup Z.eq_dec l) <? List.length l)%nat = has_dup (sortz l).
+Proof.
+  destruct (has_dup (sortz l)) eqn:E.
+  - apply Nat.ltb_lt. pose proof (nodup_length_le l) as Hle.
+    destruct (Nat.eq_dec (List.length (nodup Z.eq_dec l)) (List.length l)) as [Heq|Hne]; [|lia].
+    apply nodup_length_eq_NoDup in Heq.
+    apply (Permutation_NoDup (Permutation_sym (sortz_perm l))) in Heq.
+    apply NoDup_has_dup in Heq. congruence.
+  - apply (sorted_has_dup_NoDup _ (sortz_sorted l)) in E.
+    apply (Permutation_NoDup (sortz_perm l)) in E.
+    rewrite (nodup_fixed_point Z.eq_dec E). apply Nat.ltb_irrefl.
+Qed.
+
+Theorem unsqueeze_refines t axes : positive_shape (sh t) ->
+  refines (unsqueeze_spec t axes) (let* v := unsqueeze_model t axes in MOk [Some v]).
+Proof.
+  intros _. unfold unsqueeze_spec, unsqueeze_model. cbv zeta.
+  destruct (sh axes) as [|k [|k' sr]] eqn:Hsa; [exact I| |exact I].
+  cbv beta iota.
+  set (R := Z.of_nat (List.length (sh t) + List.length (pl axes))).
+  rewrite (forallb_ext' (fun a => (- R <=? a) && (a <=? R - 1)) (fun x => (- R <=? x) && (x <? R))).
+  2:{ intros x. f_equal. apply eq_true_iff_eq. rewrite Z.leb_le, Z.ltb_lt. lia. }
+  destruct (forallb (fun x => (- R <=? x) && (x <? R)) (pl axes)) eqn:Hrange; cbn [negb]; [|reflexivity].
+  set (nm := map (fun x => if x <? 0 then x + R else x) (pl axes)).
+  rewrite nodup_has_dup.
+  destruct (has_dup (sortz nm)) eqn:Hdup; [reflexivity|].
+  apply refines_ok_must; [|apply insert_ones_nonneg].
+  unfold total. apply insert_ones_prod.
+  rewrite (Permutation_length (sortz_perm nm)). unfold nm. rewrite map_length.
+  unfold R. rewrite Nat2Z.id. lia.
+Qed.
+
+(* ------------------------------------------------------------------------------------ *)
+(* Reshape                                                                               *)
+(* ------------------------------------------------------------------------------------ *)
+
+(* S's "copied" list, with the index offset made explicit *)
+Definition copiedS (k : nat) (ns : list Z) (cur : list nat) : list Z :=
+  map (fun p => if snd p =? 0 then match nth_error cur (fst p) with Some d => Z.of_nat d | None => -7 end else snd p)
+      (combine (seq k (List.length ns)) ns).
+
+Lemma copy_zeros_copied ns : forall k cur, Forall (fun d => -1 <= d) ns ->
+  copy_zeros k ns cur = if existsb (fun d => d =? -7) (copiedS k ns cur) then None else Some (copiedS k ns cur).
+Proof.
+  induction ns as [|d r IH]; intros k cur Hge; [reflexivity|].
+  inversion Hge as [|? ? Hd Hr]; subst.
+  unfold copiedS. cbn [List.length seq combine map fst snd existsb copy_zeros]. fold (copiedS (S k) r cur).
+  rewrite (IH (S k) cur Hr).
+  destruct (d =? 0) eqn:Hd0.
+  - destruct (nth_error cur k) as [x|]; cbn [option_map].
+    + replace (Z.of_nat x =? -7) with false by (symmetry; apply Z.eqb_neq; lia). cbn [orb].
+      destruct (existsb (fun d0 => d0 =? -7) (copiedS (S k) r cur)); reflexivity.
+    + reflexivity.
+  - replace (d =? -7) with false by (symmetry; apply Z.eqb_neq; lia). cbn [orb].
+    destruct (existsb (fun d0 => d0 =? -7) (copiedS (S k) r cur)); reflexivity.
+Qed.
+
+Lemma copied_count ns : forall k cur,
+  filter (fun d => d =? -1) (copiedS k ns cur) = filter (fun d => d =? -1) ns.
+Proof.
+  induction ns as [|d r IH]; intros k cur; [reflexivity|].
+  unfold copiedS. cbn [List.length seq combine map fst snd filter]. fold (copiedS (S k) r cur).
+  rewrite IH. destruct (d =? 0) eqn:Hd0; [|reflexivity].
+  apply Z.eqb_eq in Hd0. subst d. change (0 =? -1) with false. cbv iota.
+  destruct (nth_error cur k) as [x|]; [|reflexivity].
+  replace (Z.of_nat x =? -1) with false by (symmetry; apply Z.eqb_neq; lia). reflexivity.
+Qed.
+
+Lemma copied_entries ns : forall k cur, positive_shape cur -> Forall (fun d => -1 <= d) ns ->
+  existsb (fun d => d =? -7) (copiedS k ns cur) = false ->
+  Forall (fun d => d = -1 \/ 1 <= d) (copiedS k ns cur).
+Proof.
+  induction ns as [|d r IH]; intros k cur Hpos Hge Hex; [apply Forall_nil|].
+  inversion Hge as [|? ? Hd Hr]; subst.
+  unfold copiedS in *. cbn [List.length seq combine map fst snd existsb] in *.
+  fold (copiedS (S k) r cur) in *.
+  apply orb_false_iff in Hex as [H1 H2].
+  apply Forall_cons; [|apply IH; assumption].
+  destruct (d =? 0) eqn:Hd0.
+  - destruct (nth_error cur k) as [x|] eqn:Hn; [|discriminate H1].
+    right. apply nth_error_In in Hn. unfold positive_shape in Hpos. rewrite Forall_forall in Hpos.
+    specialize (Hpos x Hn). lia.
+  - apply Z.eqb_neq in Hd0. lia.
+Qed.
+
+Lemma first_neg1_existsb c :
+  existsb (fun d => d =? -1) c = match first_neg1 c with Some _ => true | None => false end.
+Proof.
+  induction c as [|d r IH]; [reflexivity|]. cbn [existsb first_neg1].
+  destruct (d =? -1); [reflexivity|]. cbn [orb]. rewrite IH. destruct (first_neg1 r); reflexivity.
+Qed.
+
+Lemma first_neg1_split c : forall i, first_neg1 c = Some i ->
+  exists a b, c = a ++ -1 :: b /\ firstn i c = a /\ skipn (S i) c = b
+              /\ existsb (fun d => d =? -1) a = false.
+Proof.
+  induction c as [|d r IH]; intros i Hi; [discriminate|].
+  cbn [first_neg1] in Hi. destruct (d =? -1) eqn:Hd.
+  - injection Hi as <-. apply Z.eqb_eq in Hd. subst d. exists [], r. repeat split.
+  - destruct (first_neg1 r) as [j|] eqn:Hj; [|discriminate]. cbn [option_map] in Hi. injection Hi as <-.
+    destruct (IH j eq_refl) as (a & b & E1 & E2 & E3 & E4). exists (d :: a), b.
+    cbn [firstn skipn app existsb]. rewrite Hd, E4. cbn [skipn] in E3.
+    split; [f_equal; exact E1|]. split; [f_equal; exact E2|]. split; [exact E3|reflexivity].
+Qed.
+
+Lemma fold_quot_div l : forall tot, Forall (fun d => 1 <= d) l -> 0 <= tot ->
+  fold_left Z.quot l tot = tot / zprod l.
+Proof.
+  induction l as [|d r IH]; intros tot Hl Ht; cbn [fold_left].
+  - rewrite zprod_nil, Z.div_1_r. reflexivity.
+  - inversion Hl as [|? ? Hd Hr]; subst. rewrite zprod_cons.
+    rewrite IH; [|exact Hr|apply Z.quot_pos; lia].
+    rewrite Z.quot_div_nonneg by lia. pose proof (zprod_pos r Hr) as Hp.
+    rewrite Z.div_div by lia. reflexivity.
+Qed.
+
+Lemma filter_neg1_id a : existsb (fun d => d =? -1) a = false ->
+  filter (fun d => negb (d =? -1)) a = a.
+Proof.
+  induction a as [|x a IH]; cbn [existsb filter]; intros H; [reflexivity|].
+  apply orb_false_iff in H as [H1 H2]. rewrite H1. cbn [negb]. now rewrite IH.
+Qed.
+
+Lemma map_neg1_id q a : existsb (fun d => d =? -1) a = false ->
+  map (fun d => if d =? -1 then q else d) a = a.
+Proof.
+  induction a as [|x a IH]; cbn [existsb map]; intros H; [reflexivity|].
+  apply orb_false_iff in H as [H1 H2]. rewrite H1. now rewrite IH.
+Qed.
+
+Lemma entries_no_neg1 a : Forall (fun d => d = -1 \/ 1 <= d) a ->
+  existsb (fun d => d =? -1) a = false -> Forall (fun d => 1 <= d) a.
+Proof.
+  induction 1 as [|x a Hx _ IH]; cbn [existsb]; intros H; [apply Forall_nil|].
+  apply orb_false_iff in H as [H1 H2]. apply Z.eqb_neq in H1.
+  apply Forall_cons; [lia|exact (IH H2)].
+Qed.
+
+(* two or more -1: the model's infer refuses *)
+Lemma infer_multi c tot : (1 < List.length (filter (fun d => (d =? -1)%Z) c))%nat -> infer c tot = None.
+Proof.
+  intros Hcnt. unfold infer. destruct (first_neg1 c) as [i|] eqn:Hi.
+  - destruct (first_neg1_split c i Hi) as (a & b & Hc & Hfa & Hsb & Ha).
+    rewrite Hfa, Hsb. cbv zeta. subst c.
+    rewrite filter_app, app_length in Hcnt. rewrite (existsb_false_filter _ _ Ha) in Hcnt.
+    cbn [filter] in Hcnt. change (-1 =? -1) with true in Hcnt. cbv iota in Hcnt.
+    cbn [List.length] in Hcnt.
+    rewrite existsb_app, Ha. cbn [orb].
+    destruct (existsb (fun d => d =? -1) b) eqn:Hb; [reflexivity|].
+    rewrite (existsb_false_filter _ _ Hb) in Hcnt. cbn [List.length] in Hcnt. lia.
+  - pose proof (first_neg1_existsb c) as He. rewrite Hi in He.
+    rewrite (existsb_false_filter _ _ He) in Hcnt. cbn [List.length] in Hcnt. lia.
+Qed.
+
+(* at most one -1, every other entry positive: S and the model agree *)
+Lemma reshape_core t c :
+  1 <= total t -> Forall (fun d => d = -1 \/ 1 <= d) c ->
+  (List.length (filter (fun d => (d =? -1)%Z) c) <= 1)%nat ->
+  refines (let known := zprod (filter (fun d => negb (d =? -1)) c) in
+           if existsb (fun d => d =? -1) c then
+             if (known =? 0) || negb (total t mod known =? 0) then SMustErr
+             else SMust1 (with_shape t (map (fun d => if d =? -1 then total t / known else d) c))
+           else if known =? total t then SMust1 (with_shape t c) else SMustErr)
+          (let* v := match infer c (total t) with None => MErr | Some ns' => gz_reshape t ns' end
+           in MOk [Some v]).
+Proof.
+  intros Htot Hent Hcnt. cbv zeta. unfold infer. rewrite first_neg1_existsb.
+  destruct (first_neg1 c) as [i|] eqn:Hi.
+  - destruct (first_neg1_split c i Hi) as (a & b & Hc & Hfa & Hsb & Ha).
+    rewrite Hfa, Hsb. cbv zeta. clear Hi Hfa Hsb. subst c.
+    assert (Hb : existsb (fun d => d =? -1) b = false).
+    { apply filter_nil_existsb. rewrite filter_app, app_length in Hcnt.
+      cbn [filter] in Hcnt. change (-1 =? -1) with true in Hcnt. cbv iota in Hcnt.
+      cbn [List.length] in Hcnt.
+      destruct (filter (fun d => d =? -1) b) as [|x r]; [reflexivity|]. cbn [List.length] in Hcnt. lia. }
+    apply Forall_app in Hent as [Hea Heb]. inversion Heb as [|? ? _ Heb']; subst. clear Heb.
+    pose proof (entries_no_neg1 a Hea Ha) as Hpa. pose proof (entries_no_neg1 b Heb' Hb) as Hpb.
+    rewrite existsb_app, Ha, Hb. cbn [orb].
+    rewrite filter_app. cbn [filter]. change (-1 =? -1) with true. cbn [negb]. cbv iota.
+    rewrite (filter_neg1_id a Ha), (filter_neg1_id b Hb).
+    assert (Hpab : Forall (fun d => 1 <= d) (a ++ b)) by (apply Forall_app; split; assumption).
+    pose proof (zprod_pos _ Hpab) as HK.
+    rewrite (fold_quot_div (a ++ b) (total t) Hpab) by lia.
+    set (K := zprod (a ++ b)) in *.
+    rewrite map_app. cbn [map]. change (-1 =? -1) with true. cbv iota.
+    rewrite (map_neg1_id _ a Ha), (map_neg1_id _ b Hb).
+    replace (K =? 0) with false by (symmetry; apply Z.eqb_neq; lia). cbn [orb app].
+    pose proof (Z.div_mod (total t) K ltac:(lia)) as Hdm.
+    pose proof (Z.mod_pos_bound (total t) K ltac:(lia)) as Hmb.
+    assert (Hprod : zprod (a ++ total t / K :: b) = K * (total t / K)).
+    { unfold K. rewrite !zprod_app, zprod_cons. ring. }
+    destruct (total t mod K =? 0) eqn:Hm; cbn [negb].
+    + apply Z.eqb_eq in Hm. apply refines_ok_must.
+      * rewrite Hprod. lia.
+      * apply Forall_app. split; [apply Forall_ge1_nonneg; exact Hpa|].
+        apply Forall_cons; [apply Z.div_pos; lia|apply Forall_ge1_nonneg; exact Hpb].
+    + apply Z.eqb_neq in Hm. apply refines_err. rewrite Hprod. lia.
+  - pose proof (first_neg1_existsb c) as He. rewrite Hi in He.
+    rewrite (filter_neg1_id c He).
+    pose proof (entries_no_neg1 c Hent He) as Hpc.
+    destruct (zprod c =? total t) eqn:Hk.
+    + apply Z.eqb_eq in Hk. apply refines_ok_must; [exact Hk|apply Forall_ge1_nonneg; exact Hpc].
+    + apply Z.eqb_neq in Hk. apply refines_err. exact Hk.
+Qed.
+
+Theorem reshape_refines t shp : positive_shape (sh t) ->
+  refines (reshape_spec t shp) (let* v := reshape_model t shp in MOk [Some v]).
+Proof.
+  intros Hpos. unfold reshape_spec, reshape_model.
+  destruct (sh shp) as [|k [|k' sr]] eqn:Hs; [exact I| |exact I].
+  cbv zeta.
+  destruct (existsb (fun d => d <? -1) (pl shp)) eqn:Hlow; [reflexivity|].
+  assert (Hge : Forall (fun d => -1 <= d) (pl shp)).
+  { apply Forall_forall. intros d Hd. destruct (Z.ltb_spec d (-1)) as [Hlt|Hle]; [|exact Hle].
+    exfalso. assert (Hex : existsb (fun d => d <? -1) (pl shp) = true).
+    { apply existsb_exists. exists d. split; [exact Hd|apply Z.ltb_lt; exact Hlt]. }
+    congruence. }
+  fold (copiedS 0 (pl shp) (sh t)).
+  rewrite (copy_zeros_copied (pl shp) 0 (sh t) Hge).
+  rewrite <- (copied_count (pl shp) 0 (sh t)).
+  set (c := copiedS 0 (pl shp) (sh t)).
+  destruct (1 <? Z.of_nat (List.length (filter (fun d => d =? -1) c))) eqn:Hcnt.
+  - apply Z.ltb_lt in Hcnt.
+    destruct (existsb (fun d => d =? -7) c); [reflexivity|].
+    cbv beta iota. rewrite infer_multi by lia. reflexivity.
+  - apply Z.ltb_ge in Hcnt.
+    destruct (existsb (fun d => d =? -7) c) eqn:H7; [reflexivity|].
+    cbv beta iota. apply reshape_core.
+    + apply total_pos. exact Hpos.
+    + apply copied_entries; assumption.
+    + lia.
+Qed.
+
+(* ------------------------------------------------------------------------------------ *)
+(* The case-level statement                                                              *)
+(* ------------------------------------------------------------------------------------ *)
+
 Theorem c07_model_refines_spec (c : opcase) :
   (forall t, In (Some t) (oc_ins c) -> positive_shape (sh t)) ->
   known_class c = None ->
   refines (spec c) (model c).
 Proof.
-Abort.
+  destruct c as [op attrs ins obs after].
+  unfold spec, model, model1, known_class. cbn [oc_op oc_ins].
+  intros Hpos Hk.
+  repeat match goal with
+         | |- refines (match ?x with _ => _ end) _ =>
+             is_var x; destruct x; cbv beta iota; try exact I
+         end.
+  all: cbv beta iota in Hk.
+  - apply squeeze_refines. apply Hpos. left. reflexivity.
+  - apply squeeze_refines. apply Hpos. left. reflexivity.
+  - apply shape_refines. intros E. rewrite E in Hk. discriminate Hk.
+  - apply unsqueeze_refines. apply Hpos. left. reflexivity.
+  - apply flatten_refines. apply Hpos. left. reflexivity.
+  - apply reshape_refines. apply Hpos. left. reflexivity.
+Qed.
+
+Print Assumptions reshape_refines.
+Print Assumptions flatten_refines.
+Print Assumptions squeeze_refines.
+Print Assumptions unsqueeze_refines.
+Print Assumptions shape_refines.
+Print Assumptions c07_model_refines_spec.
